@@ -33,6 +33,7 @@ type Rewrite struct {
 	File          string         `json:"file"`
 	HookFuncs     []string       `json:"hook_funcs,omitempty"`
 	RedirectTime  bool           `json:"redirect_time,omitempty"`
+	RedirectAtomic bool          `json:"redirect_atomic,omitempty"`
 	CallRedirects []CallRedirect `json:"call_redirects,omitempty"`
 }
 
@@ -191,6 +192,32 @@ func applyRewrite(rw Rewrite) ([]byte, error) {
 			astutil.AddNamedImport(fset, f, "zzverif", vzPkg)
 			if !astutil.UsesImport(f, "time") {
 				astutil.DeleteImport(fset, f, "time")
+			}
+		}
+	}
+	if rw.RedirectAtomic {
+		changed := false
+		ast.Inspect(f, func(n ast.Node) bool {
+			sel, ok := n.(*ast.SelectorExpr)
+			if !ok {
+				return true
+			}
+			id, ok := sel.X.(*ast.Ident)
+			if !ok || id.Name != "atomic" || id.Obj != nil {
+				return true
+			}
+			switch sel.Sel.Name {
+			case "AddInt64", "LoadInt64", "StoreInt64", "CompareAndSwapInt64":
+				id.Name = "zzverif"
+				sel.Sel.Name = "Atomic" + sel.Sel.Name
+				changed = true
+			}
+			return true
+		})
+		if changed {
+			astutil.AddNamedImport(fset, f, "zzverif", vzPkg)
+			if !astutil.UsesImport(f, "sync/atomic") {
+				astutil.DeleteImport(fset, f, "sync/atomic")
 			}
 		}
 	}
